@@ -387,6 +387,14 @@ fn mt_stress(rep: &mut Rep, id: &str, threads: usize, ops_per_thread: usize, see
 }
 
 pub fn run(rep: &mut Rep) {
+    if rep.profile == "miri" {
+        // Miri tier: scaled-down wrap-around run and a tiny real-thread stress (data-race detection on the
+        // shared identifier counters and the channels)
+        rep.note("miri: per shard one 150-operation run across the identifier wrap and one 2-thread x 24-operation stress");
+        long_run(rep, &format!("miri-long:{}", rep.shard), 150, 5, Some((65500 - (rep.shard as u16) * 7, 120 + rep.shard as u32)), rep.seed + rep.shard);
+        mt_stress(rep, &format!("miri-mt:{}", rep.shard), 2, 24, rep.seed.wrapping_mul(31).wrapping_add(rep.shard));
+        return;
+    }
     let mut idx = 0u64;
     // single task: (total operations, window of outstanding operations acknowledged FIFO)
     let mut runs: Vec<(usize, usize, Option<(u16, u32)>)> = vec![
